@@ -21,7 +21,7 @@ func init() {
 	Register(&Rule{
 		ID:    "R-NARROW",
 		Doc:   "every narrowing integer conversion of a protocol quantity is dominated by range tests with exactly the target type's bounds, or its source is a parser bounded by constant limits within the target range; exceptions are an explicit table",
-		Props: []string{"C02", "C04", "C08", "C12", "C19", "C03"},
+		Props: []string{"C02", "C04", "C08", "C12", "C19", "C03", "C07"},
 		Min:   map[string]int{"C02": 6, "C04": 3, "C08": 3, "C12": 2, "C19": 1},
 		Run:   runNarrow,
 	})
@@ -189,7 +189,7 @@ func runNarrow(c *core.Ctx) []core.Obligation {
 		case strings.HasPrefix(n, "json."):
 			return []string{"C02"}
 		case strings.HasPrefix(n, "proto."):
-			return []string{"C12", "C19", "C03"}
+			return []string{"C12", "C19", "C03", "C07"}
 		case strings.HasPrefix(n, "thrift."):
 			return []string{"C04", "C08"}
 		}
